@@ -137,6 +137,7 @@ def run_scenario(ex, fnode, c, scen):
         ex.decisions = []
         ex.hyps = []
         ex.div_seen = set()
+        ex.global_roots = {}
         ex.var_shapes = {}
         S.DIV_INSTANCES[:] = []
         ex.store = {}
@@ -216,6 +217,8 @@ def run_scenario(ex, fnode, c, scen):
                 register_inputs(ex, nm, v)
             names[nm] = Path(p['id'])
             ex.names[nm] = Path(p['id'])
+        for g in c.globals:
+            names[g] = ex.ensure_global(g)
         # ---- preconditions
         pre_store = dict(ex.store)
         env_pre = S.Env(ex, pre_store, dict(names), this_path if not is_ctor else None, dict(c.extra_env))
@@ -277,6 +280,13 @@ def run_scenario(ex, fnode, c, scen):
         # ---- postconditions
         allnames = dict(ex.names)
         allnames.update(names)     # locals are visible to witnesses; parameters keep priority
+        # by-value parameters denote their values at entry in postconditions (the callee may have modified its copy)
+        for p_ in params_of(fnode):
+            psh = ex.shapes.of_node(p_)
+            if psh[0] != 'ref' and p_.get('name') in names and p_['id'] in pre_store:
+                snap = 'entry_' + p_['id']
+                ex.store[snap] = pre_store[p_['id']]
+                allnames[p_['name']] = Path(snap)
         env_post = S.Env(ex, ex.store, allnames, this_path, extra)
         ex2 = dict(extra)
         ex2['old'] = OldNS(env_pre)
@@ -365,6 +375,13 @@ def frame_check(ex, c, names, this_path, pre_store, kind, is_ctor):
             continue
         assignable.add(a.rstrip('!'))
     roots = [r for r in pre_store if isinstance(r, str) and (r.startswith('in_') or r.startswith('ext_') or r == 'this')]
+    # namespace-scope state touched by the function (created lazily at first access)
+    for gr, g0 in ex.global_roots.items():
+        new = ex.store.get(gr)
+        nm = gr[len('glob_'):]
+        if new is not g0 and nm not in assignable:
+            ex.oblige('frame', 'global.' + nm, tree_eq(g0, new), None, props=c.props_for('frame'),
+                      detail='namespace-scope variable modified but not in the assigns clause')
     for r in roots:
         if r == 'this' and is_ctor:
             continue
